@@ -379,6 +379,11 @@ theorem c09_inv_step (s : State) (now : Nat) (f : Faults) (op : Op) (hi : Inv s)
   | uAdd id => simp only [step]; split <;> first | exact hi | exact same s _ rfl rfl hi
   | uRemove b => simp only [step]; split <;> first | exact hi | exact same s _ rfl rfl hi
   | uRemoveAll => simp only [step]; split <;> first | exact hi | exact same s _ rfl rfl hi
+  | forward req =>
+    simp only [step]
+    split
+    · exact hi
+    · split <;> first | exact hi | exact same s _ rfl rfl hi
 
 /-- a history: operations with their times and fault sets -/
 def runHist (s : State) : List (Op × Nat × Faults) → State
